@@ -444,12 +444,7 @@ package fsm
 //@   ensures isnil(err) ==> kvHas() == old(store(kvHas(), valKey(bytes(validator.Address)), true))
 //@   ensures !isnil(err) ==> kvHas() == old(kvHas())
 //@   ensures !isnil(err) ==> stakeOf() == old(stakeOf()) && stakeSum(s) == old(stakeSum(s)) && valOutput() == old(valOutput())
-//@ func (*StateMachine).SetCommittees
-//@   trusted
-//@   modifies ghost(kvHas)
-//@ func (*StateMachine).SetDelegations
-//@   trusted
-//@   modifies ghost(kvHas)
+// (SetCommittees / SetDelegations: see "per-committee tallies" below)
 //@ func (*StateMachine).CommitteeIsRetired
 //@   trusted
 //@   pure
@@ -619,7 +614,7 @@ package fsm
 // deleting a validator record also removes its unstaking / paused markers, so no marker ever refers to
 // a validator that no longer exists (end-block processing of such a marker would fail every block)
 //@ func (*StateMachine).DeleteValidator
-//@   modifies ghost(kvHas), ghost(stakeOf), ghost(stakeSum), ghost(supStaked), ghost(supDelegated), ghost(supTotal), Supply.Staked, Supply.DelegatedOnly
+//@   modifies ghost(kvHas), ghost(stakeOf), ghost(stakeSum), ghost(supStaked), ghost(supDelegated), ghost(supTotal), ghost(cStaked), ghost(cDelegated), Supply.Staked, Supply.DelegatedOnly
 //@   ensures[unstakemarker] result == nil && validator.UnstakingHeight != 0 ==> !kvHas(unstakeKey(validator.UnstakingHeight, bytes(validator.Address)))
 //@   ensures[pausedmarker] result == nil && validator.MaxPausedHeight != 0 ==> !kvHas(pausedKey(validator.MaxPausedHeight, bytes(validator.Address)))
 // (the record is removed through the raw store Delete: that this zeroes the validator's abstract stake is ASSUMED)
@@ -627,14 +622,73 @@ package fsm
 //@   ensures[frame] acctBal() == old(acctBal()) && poolBal() == old(poolBal()) && acctSum(s) == old(acctSum(s)) && poolSum(s) == old(poolSum(s)) && supTotal(s) == old(supTotal(s))
 // committee / delegation index maintenance touches committee, delegate and supply-pool keys only
 // (assumed frame: these go through parameter reads and the store interface)
+// ---- C12: per-committee tallies follow the validator records ------------------------------------------------------
+// cStaked(id) / cDelegated(id): the staked / delegated-only tally the supply tracker keeps for committee id (ghost
+// view; the four *ForChain primitives are ASSUMED to implement it: they move exactly `amount` in exactly that entry,
+// never wrap, never go negative, and leave everything unchanged on failure).
+// contrib(cs, n, id, stake): what a record staked for committees cs[0..n) with `stake` contributes to committee id.
+// Filing a record (SetCommittees / SetDelegations) adds exactly its contribution to every committee's tally, removing
+// it (Delete…) subtracts exactly that, and Update… = remove the OLD record's contribution, add the NEW one's - so
+// "tally = sum over records" is preserved whenever the caller hands over the record as stored (the `snapshot`
+// call-site clauses). The legacy index keys these functions also write stay an assumed frame (`markers`).
+//@ ghost cStaked(id int) uint64
+//@ ghost cDelegated(id int) uint64
+//@ spec func contrib(cs []uint64, n int, id int, stake int) int = n <= 0 ? 0 : contrib(cs, n-1, id, stake) + (cs[n-1] == id ? stake : 0)
+//@ func (*StateMachine).AddToCommitteeSupplyForChain
+//@   trusted
+//@   modifies ghost(cStaked)
+//@   ensures isnil(result) ==> cStaked() == old(store(cStaked(), chainId, cStaked(chainId) + amount)) && old(cStaked(chainId)) + amount <= MaxUint64
+//@   ensures !isnil(result) ==> cStaked() == old(cStaked())
+//@ func (*StateMachine).SubFromCommitteeStakedSupplyForChain
+//@   trusted
+//@   modifies ghost(cStaked)
+//@   ensures isnil(result) ==> cStaked() == old(store(cStaked(), chainId, cStaked(chainId) - amount)) && old(cStaked(chainId)) >= amount
+//@   ensures !isnil(result) ==> cStaked() == old(cStaked())
+//@ func (*StateMachine).AddToDelegateSupplyForChain
+//@   trusted
+//@   modifies ghost(cDelegated)
+//@   ensures isnil(result) ==> cDelegated() == old(store(cDelegated(), chainId, cDelegated(chainId) + amount)) && old(cDelegated(chainId)) + amount <= MaxUint64
+//@   ensures !isnil(result) ==> cDelegated() == old(cDelegated())
+//@ func (*StateMachine).SubFromDelegateStakedSupplyForChain
+//@   trusted
+//@   modifies ghost(cDelegated)
+//@   ensures isnil(result) ==> cDelegated() == old(store(cDelegated(), chainId, cDelegated(chainId) - amount)) && old(cDelegated(chainId)) >= amount
+//@   ensures !isnil(result) ==> cDelegated() == old(cDelegated())
+//@ func (*StateMachine).SetCommitteeMember
+//@   trusted
+//@   modifies ghost(kvHas)
+//@ func (*StateMachine).DeleteCommitteeMember
+//@   trusted
+//@   modifies ghost(kvHas)
+//@ func (*StateMachine).SetDelegate
+//@   trusted
+//@   modifies ghost(kvHas)
+//@ func (*StateMachine).DeleteDelegate
+//@   trusted
+//@   modifies ghost(kvHas)
+//@ func (*StateMachine).SetCommittees
+//@   modifies ghost(kvHas), ghost(cStaked)
+//@   loop 1 invariant[tally] forall id int :: cStaked(id) == old(cStaked(id)) + contrib(committees, iter, id, totalStake)
+//@   ensures[tally] isnil(err) ==> forall id int :: cStaked(id) == old(cStaked(id)) + contrib(committees, len(committees), id, totalStake)
 //@ func (*StateMachine).DeleteCommittees
-//@   trusted
-//@   modifies ghost(kvHas)
-//@   ensures forall h int, a BSeq :: kvHas(unstakeKey(h, a)) == old(kvHas(unstakeKey(h, a))) && kvHas(pausedKey(h, a)) == old(kvHas(pausedKey(h, a)))
+//@   modifies ghost(kvHas), ghost(cStaked)
+//@   assumed[markers] forall h int, a BSeq :: kvHas(unstakeKey(h, a)) == old(kvHas(unstakeKey(h, a))) && kvHas(pausedKey(h, a)) == old(kvHas(pausedKey(h, a)))
+//@   loop 1 invariant[tally] forall id int :: cStaked(id) == old(cStaked(id)) - contrib(committees, iter, id, totalStake)
+//@   ensures[tally] isnil(err) ==> forall id int :: cStaked(id) == old(cStaked(id)) - contrib(committees, len(committees), id, totalStake)
+//@ func (*StateMachine).SetDelegations
+//@   modifies ghost(kvHas), ghost(cStaked), ghost(cDelegated)
+//@   loop 1 invariant[tally] forall id int :: cStaked(id) == old(cStaked(id)) + contrib(committees, iter, id, totalStake) && cDelegated(id) == old(cDelegated(id)) + contrib(committees, iter, id, totalStake)
+//@   ensures[tally] isnil(result) ==> forall id int :: cStaked(id) == old(cStaked(id)) + contrib(committees, len(committees), id, totalStake) && cDelegated(id) == old(cDelegated(id)) + contrib(committees, len(committees), id, totalStake)
 //@ func (*StateMachine).DeleteDelegations
-//@   trusted
-//@   modifies ghost(kvHas)
-//@   ensures forall h int, a BSeq :: kvHas(unstakeKey(h, a)) == old(kvHas(unstakeKey(h, a))) && kvHas(pausedKey(h, a)) == old(kvHas(pausedKey(h, a)))
+//@   modifies ghost(kvHas), ghost(cStaked), ghost(cDelegated)
+//@   assumed[markers] forall h int, a BSeq :: kvHas(unstakeKey(h, a)) == old(kvHas(unstakeKey(h, a))) && kvHas(pausedKey(h, a)) == old(kvHas(pausedKey(h, a)))
+//@   loop 1 invariant[tally] forall id int :: cStaked(id) == old(cStaked(id)) - contrib(committees, iter, id, totalStake) && cDelegated(id) == old(cDelegated(id)) - contrib(committees, iter, id, totalStake)
+//@   ensures[tally] isnil(result) ==> forall id int :: cStaked(id) == old(cStaked(id)) - contrib(committees, len(committees), id, totalStake) && cDelegated(id) == old(cDelegated(id)) - contrib(committees, len(committees), id, totalStake)
+//@ func (*StateMachine).UpdateCommittees
+//@   ensures[tally] isnil(result) ==> forall id int :: cStaked(id) == old(cStaked(id)) - old(contrib(oldValidator.Committees, len(oldValidator.Committees), id, oldValidator.StakedAmount)) + contrib(newCommittees, len(newCommittees), id, newStakedAmount)
+//@ func (*StateMachine).UpdateDelegations
+//@   ensures[tally] isnil(result) ==> forall id int :: cStaked(id) == old(cStaked(id)) - old(contrib(oldValidator.Committees, len(oldValidator.Committees), id, oldValidator.StakedAmount)) + contrib(newCommittees, len(newCommittees), id, newStakedAmount)
+//@   ensures[delegated] isnil(result) ==> forall id int :: cDelegated(id) == old(cDelegated(id)) - old(contrib(oldValidator.Committees, len(oldValidator.Committees), id, oldValidator.StakedAmount)) + contrib(newCommittees, len(newCommittees), id, newStakedAmount)
 
 // ---- C14: per-committee slash cap -----------------------------------------------------------------------------
 // slashPct(t)[a][c]: percent of validator a's stake that committee c has slashed so far in this block
